@@ -464,8 +464,19 @@ pub fn stall_hook(ev: SchedEvent) {
     }
 }
 
-/// How long a step that must make progress may take before it is reported as hung.
-const HANG: Duration = Duration::from_secs(30);
+/// How long a step that must make progress may take before it is reported as hung: generous
+/// for the first report of a process (a wake-up takes microseconds; the slack is for a loaded
+/// machine, and every report is replayed before it counts), short once a hang has been seen, so
+/// that a defect which loses every wake-up does not cost the full wait thousands of times.
+static HANGS_SEEN: AtomicU64 = AtomicU64::new(0);
+
+fn hang_limit() -> Duration {
+    if HANGS_SEEN.load(Ordering::Relaxed) < 2 {
+        Duration::from_secs(10)
+    } else {
+        Duration::from_millis(40)
+    }
+}
 
 pub struct Store {
     pub cfg: Cfg,
@@ -475,6 +486,7 @@ pub struct Store {
     bare: Option<&'static LsmTree>,
     /// a flush parked on the level-0 stall (see Op::FlushStalled)
     pending: Option<PendingFlush>,
+    pending_hung: bool,
     pub n_stalled_flushes_completed: u64,
     /// compaction steps after which the set of files at the oldest level differed (a GC ran, or
     /// a file arrived there)
@@ -521,6 +533,7 @@ impl Store {
             kvs,
             bare,
             pending: None,
+            pending_hung: false,
             n_stalled_flushes_completed: 0,
             n_steps_rewriting_oldest_level: 0,
             model: Model::new(),
@@ -595,7 +608,8 @@ impl Store {
             body()
         });
         let mut kind = Some(kind);
-        let deadline = Instant::now() + HANG;
+        // parking takes a thread spawn and a hard link: always the generous limit here
+        let deadline = Instant::now() + Duration::from_secs(10);
         loop {
             if stalls.load(Ordering::SeqCst) > 0 {
                 self.pending = Some(PendingFlush { handle, stalls, kind: kind.take().unwrap() });
@@ -609,21 +623,29 @@ impl Store {
                 };
             }
             if Instant::now() > deadline {
-                std::mem::forget(handle);
-                return StepResult::Err("a flush or ingest into a level 0 at the stall threshold neither parked on the stall nor returned within 30 s".into());
+                HANGS_SEEN.fetch_add(1, Ordering::Relaxed);
+                // the helper still borrows the subject: never free it
+                self.pending = Some(PendingFlush { handle, stalls, kind: kind.take().unwrap() });
+                self.pending_hung = true;
+                return StepResult::Err("a flush or ingest into a level 0 at the stall threshold neither parked on the stall nor returned within the hang limit".into());
             }
             std::thread::sleep(Duration::from_micros(20));
         }
     }
 
     fn finish_pending(&mut self) -> Result<(), String> {
+        if self.pending_hung {
+            return Err("the flush or ingest parked on the stall was not woken (reported at an earlier step)".into());
+        }
         let p = self.pending.take().expect("pending");
-        let deadline = Instant::now() + HANG;
+        let deadline = Instant::now() + hang_limit();
         while !p.handle.is_finished() {
             if Instant::now() > deadline {
+                HANGS_SEEN.fetch_add(1, Ordering::Relaxed);
                 // leak the thread (and, in close(), the store it borrows)
                 self.pending = Some(p);
-                return Err("level 0 no longer holds back ingest, but the flush or ingest parked on the stall was not woken within 30 s".into());
+                self.pending_hung = true;
+                return Err("level 0 no longer holds back ingest, but the flush or ingest parked on the stall was not woken within the hang limit (10 s)".into());
             }
             std::thread::sleep(Duration::from_micros(20));
         }
@@ -667,6 +689,12 @@ impl Store {
 
     fn close(&mut self) {
         self.cursors.clear();
+        if self.pending.is_some() && self.pending_hung {
+            std::mem::forget(self.pending.take());
+            self.kvs = None;
+            self.bare = None;
+            return;
+        }
         if self.pending.is_some() {
             // let the parked flush through: compact until level 0 has room
             for _ in 0..64 {
@@ -675,7 +703,9 @@ impl Store {
                 }
                 match self.compact_step() {
                     Ok(true) => {
-                        let _ = self.after_compaction();
+                        if self.after_compaction().is_err() {
+                            break;
+                        }
                     }
                     _ => break,
                 }
@@ -779,6 +809,12 @@ impl Store {
                 Op::Compact | Op::CompactAll | Op::Verify | Op::Scan(_) | Op::Walk(..) => {}
                 _ => return StepResult::Disabled,
             }
+        }
+        // A helper that is never woken cannot be freed, nor can the subject it borrows (megabytes
+        // each).  After 40 such witnesses in one process the defect is established; further
+        // parked writers are not started (the run is failing already, its verdict is unchanged).
+        if matches!(op, Op::FlushStalled | Op::IngestStalled(_)) && HANGS_SEEN.load(Ordering::Relaxed) >= 40 {
+            return StepResult::Disabled;
         }
         if *op == Op::FlushStalled {
             if self.is_bare_tree() || !self.flush_pending() || !self.would_stall() {
